@@ -3,6 +3,7 @@ DRIVER = "c17"
 TRUSTED = [
     "sort.SliceStable is modelled as a stable sort (Go standard library trusted)",
     "comparison functions are total, side-effect free Go functions (family lt_of 0..5 in the harness)",
+    "fun.Iterator / Observe / Run delivering a prefix of the source to NewHeapFromIterator is trusted; the driver reads the consumed prefix off the returned heap's Len()",
 ]
 ASSUMPTIONS = [
     "lt is a strict weak order for the Heap minimality theorem (irreflexive, transitive, negatively transitive); IsSorted theorems hold for every lt",
@@ -14,7 +15,7 @@ EXPLANATION = ("Theorems in coq/Props/C17.v over all lists / all push-pop sequen
 READY = True
 LEVEL_TEXT = ("Machine-checked Coq theorems: IsSorted(lt) <-> no adjacent pair out of order for every list and every lt; "
               "Heap: for every push/pop sequence popped+remaining is a permutation of pushed, and for every strict weak order each pop "
-              "returns a value nothing inside is lt; SortMerge (pointer-level model): permutation of the same elements for every lt, "
+              "returns a value nothing inside is lt, also for heaps built by NewHeapFromIterator from any consumed prefix (iterator completed, failed, cancelled); SortMerge (pointer-level model): permutation of the same elements for every lt, "
               "sorted for every asymmetric lt, result well-formed and owned by the receiver; SortQuick: permutation, sorted and stable "
               "for every sorter meeting the stable-sort contract (the model's executable sorter meets it for every strict weak order). "
               "Model tied to /repo by differential correspondence on every run.")
